@@ -136,8 +136,18 @@ class Machine:
             raise Unknown(f'attribute {au.src(e)}')
         if isinstance(e, ast.Subscript):
             c = self.ev(e.value)
+            if isinstance(e.slice, ast.Slice):
+                if not isinstance(c, (list, tuple, str)):
+                    raise Unknown('slice of ' + type(c).__name__)
+                lo, hi, st = (
+                    self.ev(x) if x is not None else None
+                    for x in (e.slice.lower, e.slice.upper, e.slice.step))
+                return c[lo:hi:st]
             k = self.ev(e.slice)
             if isinstance(c, dict):
+                import collections
+                if isinstance(c, collections.defaultdict):
+                    return c[k]
                 if k not in c:
                     raise Raised('KeyError', e)
                 return c[k]
@@ -460,6 +470,13 @@ class Machine:
                 return getattr(operator, name.split('.')[1])(*args)
             if name.startswith('bisect.'):
                 return getattr(bisect, name.split('.')[1])(*args, **kw)
+            if name == 'collections.defaultdict':
+                import collections
+                if args and not callable(args[0]):
+                    raise Unknown('defaultdict of a model value')
+                return collections.defaultdict(*args)
+            if name == 'collections.OrderedDict':
+                return dict(*args, **kw)
         except (TypeError, ValueError, KeyError, IndexError) as ex:
             raise Raised(type(ex).__name__)
         raise Unknown(f'call {name}')
@@ -515,8 +532,21 @@ class Machine:
                 env[p] = Machine(dict(), self.stubs, resolver).ev(d)
             for p, v in zip(params, args):
                 env[p] = v
+            if a.vararg is not None:
+                env[a.vararg.arg] = tuple(args[len(params):])
+            elif len(args) > len(params):
+                raise Raised('TypeError')
+            named = set(params) | {x.arg for x in a.kwonlyargs}
+            extra = dict()
             for k, v in (kw or {}).items():
-                env[k] = v
+                if k in named:
+                    env[k] = v
+                else:
+                    extra[k] = v
+            if a.kwarg is not None:
+                env[a.kwarg.arg] = extra
+            elif extra:
+                raise Raised('TypeError')
             sub = Machine(env, self.stubs, resolver)
             sub.steps = self.steps
             is_gen = any(isinstance(x, (ast.Yield, ast.YieldFrom))
@@ -549,6 +579,18 @@ class Machine:
             except (TypeError, ValueError, KeyError, IndexError) as ex:
                 raise Raised(type(ex).__name__)
         raise Unknown('not callable')
+
+    def keywords(self, e):
+        kw = dict()
+        for k in e.keywords:
+            if k.arg is None:
+                v = self.ev(k.value)
+                if not isinstance(v, dict):
+                    raise Unknown('** of a non-dictionary')
+                kw.update(v)
+            else:
+                kw[k.arg] = self.ev(k.value)
+        return kw
 
     def instantiate(self, cls, args, kw):
         """An instance of a class of the program: an object whose
@@ -588,8 +630,7 @@ class Machine:
                 meth = self.method_of(recv0, e.func.attr)
                 if meth is not None:
                     args = self.elements(e.args)
-                    kw = {k.arg: self.ev(k.value)
-                          for k in e.keywords if k.arg}
+                    kw = self.keywords(e)
                     return self.apply_callable(meth, [recv0] + args, kw)
         if n == 'hasattr' and len(e.args) == 2:
             obj = self.ev(e.args[0])
@@ -600,7 +641,7 @@ class Machine:
             raise Unknown(au.src(e))
         if n in self.stubs:
             args = self.elements(e.args)
-            kw = {k.arg: self.ev(k.value) for k in e.keywords if k.arg}
+            kw = self.keywords(e)
             # (the object the method is called on, for stubs that
             # interpret a method of a class)
             self.receiver = recv0 if isinstance(
@@ -667,7 +708,7 @@ class Machine:
         # a local function, a safe builtin, a method of a container
         if isinstance(e.func, ast.Name):
             args = self.elements(e.args)
-            kw = {k.arg: self.ev(k.value) for k in e.keywords if k.arg}
+            kw = self.keywords(e)
             if e.func.id in self.env:
                 return self.apply_callable(self.env[e.func.id], args, kw)
             if e.func.id in ('filter', 'map') and len(args) == 2:
@@ -697,10 +738,10 @@ class Machine:
                 recv = None
                 raise
             for ty, names in self.METHODS.items():
-                if type(recv) is ty and e.func.attr in names:
+                if (type(recv) is ty or (ty is dict and isinstance(
+                        recv, dict))) and e.func.attr in names:
                     args = self.elements(e.args)
-                    kw = {k.arg: self.ev(k.value)
-                          for k in e.keywords if k.arg}
+                    kw = self.keywords(e)
                     try:
                         r = getattr(recv, e.func.attr)(*args, **kw)
                     except (KeyError, ValueError, TypeError,
@@ -717,11 +758,11 @@ class Machine:
         if isinstance(fv, tuple) and fv and fv[0] in (
                 'closure', 'lambda', 'builtin', 'method'):
             args = self.elements(e.args)
-            kw = {k.arg: self.ev(k.value) for k in e.keywords if k.arg}
+            kw = self.keywords(e)
             return self.apply_callable(fv, args, kw)
         if isinstance(fv, tuple) and fv and fv[0] == 'class':
             args = self.elements(e.args)
-            kw = {k.arg: self.ev(k.value) for k in e.keywords if k.arg}
+            kw = self.keywords(e)
             return self.instantiate(fv, args, kw)
         raise Unknown(f'call {n}')
 
@@ -1025,6 +1066,7 @@ _STDLIB = {
     'functools': {'reduce'},
     'operator': {'itemgetter', 'neg', 'not_', 'and_', 'or_', 'add', 'sub'},
     'bisect': {'bisect_left', 'bisect_right'},
+    'collections': {'defaultdict', 'OrderedDict', 'deque'},
 }
 
 
